@@ -270,7 +270,7 @@ func generate(rng *vh.Rng, hostile bool) Case {
 				}
 			}
 		}
-		if hostile && rng.Intn(12) == 0 {
+		if hostile && rng.Intn(50) == 0 {
 			switch rng.Intn(6) {
 			case 0:
 				m.Kind = "KCtrl"
